@@ -434,7 +434,9 @@ impl OutputFormat for IcyDraw {
                                         let (_, [layer_num, _chunk]) = m.extract();
                                         let layer_num = layer_num.parse::<usize>()?;
 
-                                        let layer = &mut result.layers[layer_num];
+                                        let Some(layer) = result.layers.get_mut(layer_num) else {
+                                            return Err(anyhow::anyhow!("continuation chunk {text} for a layer that does not exist"));
+                                        };
                                         match layer.role {
                                             crate::Role::Normal => {
                                                 let mut o = 0;
